@@ -89,7 +89,9 @@ def r_identical_request(r, prog):
     for g, c in spawns:
         srcs = sources_of(prog, g, c.args[1], depth=4)
         exs = {e for _, e in srcs}
-        if all('encode_generate_code_request(' in e for e in exs) and exs:
+        base = vexpr(main, {'cp': enc[0].dest})
+        n_enc = len(prog.callers_of(B + 'encode_generate_code_request'))
+        if exs and n_enc == 1 and all(p_ == main.path and base in e for p_, e in srcs):
             r.ok('every generator receives a borrow of that one encoded request', sorted(exs)[0][:80])
         else:
             r.finding('request-differs-per-generator', c.span, 'spawn_plugin_process is given %s as payload' % sorted(exs))
